@@ -82,9 +82,17 @@ func (t Translator) objFromArraiDict(v rel.Dict) (map[string]interface{}, error)
 	maps := make(map[string]interface{})
 	for e := v.DictEnumerator(); e.MoveNext(); {
 		key, value := e.Current()
-		keydata, err := t.FromArrai(key)
-		if err != nil {
-			return nil, err
+		var keydata interface{}
+		var err error
+		switch key.(type) {
+		case rel.EmptySet, *rel.EmptySet:
+			// ToArrai translates the key "" to the empty string, which is the empty set.
+			keydata = ""
+		default:
+			keydata, err = t.FromArrai(key)
+			if err != nil {
+				return nil, err
+			}
 		}
 		valuedata, err := t.FromArrai(value)
 		if err != nil {
